@@ -110,10 +110,17 @@ def check_export(nas, x, exp):
     return bad
 
 
-def set_assignment(sels, assign, rep=0):
+def set_assignment(sels, assign, rep=0, via=0):
+    """via: 0 in-place copy under no_grad, 1 `.data` re-assignment, 2 copy into `.data` (no version-counter bump)"""
     with torch.no_grad():
         for (name, m), pos in zip(sels, assign):
-            m.alpha.copy_(_reps(m.alpha.shape[0], pos)[rep % 3])
+            t = _reps(m.alpha.shape[0], pos)[rep % 3]
+            if via % 3 == 0:
+                m.alpha.copy_(t)
+            elif via % 3 == 1:
+                m.alpha.data = t.clone()
+            else:
+                m.alpha.data.copy_(t)
 
 
 def enum_assignments(sels, cap, moves):
@@ -179,14 +186,20 @@ def run_case(case, seed):
         if only is not None and only != label:
             continue
         nas.update_softmax_options(temperature=T, hard=h, gumbel=g, disable_sampling=False)
-        set_assignment(sels, asg, rep)
+        set_assignment(sels, asg, rep, via=res['states'])
         res['states'] += 1
         res['transitions'] += sum(1 for p, q in zip(asg, init) if p != q) + (0 if (T, g, h) == (1.0, False, False) else 1)
         res['evals'] += 1
         try:
             with torch.no_grad():
-                y = nas(x)
-                exp = nas.export()
+                # the order of "evaluate" and "export" must not matter: alternate it (an export that relied on coefficients
+                # sampled by a previous forward would show when it comes first)
+                if res['states'] % 2 == 0:
+                    exp = nas.export()
+                    y = nas(x)
+                else:
+                    y = nas(x)
+                    exp = nas.export()
                 exp.eval()
                 nas.eval()
                 ye = exp(x)
